@@ -9,11 +9,11 @@ git -C /repo worktree add -q --detach $WT HEAD || exit 2
 trap 'git -C /repo worktree remove --force '$WT' 2>/dev/null' EXIT
 cd $WT
 R=""
-sh "$D/demo.sh" >/tmp/verify-$N-clean.log 2>&1 && R="$R demo_passes_without=yes" || R="$R demo_passes_without=NO"
+bash "$D/demo.sh" >/tmp/verify-$N-clean.log 2>&1 && R="$R demo_passes_without=yes" || R="$R demo_passes_without=NO"
 git apply "$D/patch.diff" && R="$R applies=yes" || { echo "$N: PATCH DOES NOT APPLY"; exit 1; }
 go build ./... && R="$R builds=yes" || R="$R builds=NO"
 # the demo test file must not take part in the suite run
 find . -name 'zz_seed_demo_test.go' -delete
 go test -vet=off -count=2 ./... >/tmp/verify-$N-suite.log 2>&1 && R="$R suite_passes_with=yes" || R="$R suite_passes_with=NO"
-sh "$D/demo.sh" >/tmp/verify-$N-patched.log 2>&1 && R="$R demo_fails_with=NO" || R="$R demo_fails_with=yes"
+bash "$D/demo.sh" >/tmp/verify-$N-patched.log 2>&1 && R="$R demo_fails_with=NO" || R="$R demo_fails_with=yes"
 echo "$N:$R"
